@@ -10,12 +10,10 @@ open CfVerif
 
 /-! ## Gen obligations: what the hand-written model assumes about the current source -/
 
-theorem gen_cb_slices : Gen.C03.cbUnpackArgs = ["payload[:6]", "payload[:5]", "payload[:2]"] ∧
-    Gen.C03.cbPayload = "packet.data[1:]" ∧ Gen.C03.cbChan = "packet.channel" := by decide
+theorem gen_cb_chan : Gen.C03.cbChan = "packet.channel" := by decide
 theorem gen_cb_compares : Gen.C03.cbCompares = ["chan != 0", "self.state == GET_TOC_INFO", "self.nbr_of_items > 0",
     "self.state == GET_TOC_ELEMENT", "ident != self.requested_index", "self.requested_index < self.nbr_of_items - 1"] := by decide
-theorem gen_cb_ident : Gen.C03.cbIdentExprs = ["struct.unpack('<H', payload[:2])[0]", "payload[0]"] ∧
-    Gen.C03.cbElemArgsV2 = ["ident", "payload[2:]"] ∧ Gen.C03.cbElemArgsV1 = ["ident", "payload[1:]"] ∧
+theorem gen_cb_ident : Gen.C03.cbIdentExprs = ["struct.unpack(...)[0]", "payload[0]"] ∧
     Gen.C03.cbAugAssigns = ["self.requested_index += 1"] := by decide
 theorem gen_request : Gen.C03.reqTupleV2 = ["CMD_TOC_ITEM_V2", "index & 255", "index >> 8 & 255"] ∧
     Gen.C03.reqTupleV1 = ["CMD_TOC_ELEMENT", "index"] ∧
